@@ -93,14 +93,19 @@ def _deep_sig(prog, f):
     """path table of the *deep form* of f (bodies of its same-crate callees spliced in, engine/inline.py deep_fn): the same for two
     versions of f that differ only in where helper boundaries are.  None when it is too large to be useful."""
     from engine import inline
-    try:
-        g = inline.deep_fn(prog, f)
-        sig = leaf_sig(prog, g, keep_known_errors=True)
-    except Exception:
-        return None
-    if not sig or len(sig) > 64 or sum(len(x) for x in sig) > 40000:
-        return None
-    return sig
+    for depth in (2, 1):
+        # two levels of callees where that stays small enough to be a meaningful table, otherwise one level (tagged, so that only like is
+        # compared with like)
+        try:
+            g = inline.deep_fn(prog, f, depth=depth)
+            sig = leaf_sig(prog, g, keep_known_errors=True)
+        except _Timeout:
+            raise
+        except Exception:
+            sig = None
+        if sig and len(sig) <= 64 and sum(len(x) for x in sig) <= 40000:
+            return sig if depth == 2 else ["(one level of callees)"] + sig
+    return None
 
 
 def deep_reviewed(key):
